@@ -4,11 +4,15 @@ open Model
 open Proto
 
 let res c m = { cpu = z_of_hex c; mem = z_of_hex m; ms = Z0 }
+let res3 c m t = { cpu = z_of_hex c; mem = z_of_hex m; ms = z_of_hex t }
+let timed = Array.length Sys.argv > 1 && Sys.argv.(1) = "timed"
 
 let parse_op (s : string) : op =
   match split_on ' ' s with
   | ["P"; hc; hm; sc; sm; fl; iso] ->
     OPush { dHard = res hc hm; dSoft = res sc sm; dFlags = n_of_hex fl; dIso = (iso = "1") }
+  | ["P"; hc; hm; sc; sm; fl; iso; hms; sms] ->
+    OPush { dHard = res3 hc hm hms; dSoft = res3 sc sm sms; dFlags = n_of_hex fl; dIso = (iso = "1") }
   | ["O"] -> OPop
   | ["C"; a] -> OCpu (z_of_hex a)
   | ["M"; a] -> OMem (z_of_hex a)
@@ -23,6 +27,7 @@ let dump (c : ctx) : string =
     hex_of_z c.hard.cpu; hex_of_z c.hard.mem; hex_of_z c.soft.cpu; hex_of_z c.soft.mem;
     hex_of_z c.used.cpu; hex_of_z c.used.mem; hex_of_n c.flags; st_str c.st;
     (if due c then "1" else "0") ]
+  ^ (if timed then "," ^ String.concat "," [hex_of_z c.hard.ms; hex_of_z c.soft.ms; hex_of_z c.used.ms] else "")
 
 let term_str = function
   | TForce -> "term:force"
@@ -49,8 +54,12 @@ let () =
       let ops = List.map String.trim (String.split_on_char ';' rest) in
       let ops = List.filter (fun s -> s <> "") ops in
       let m = ref init in
+      let now = ref Z0 in
       let outs = List.map (fun s ->
-        let r = step Z0 !m (parse_op s) in
-        m := mres_mgr r; show r) ops in
+        match split_on ' ' s with
+        | ["T"; v] -> now := z_of_hex v; show (MOk (!m, None))
+        | _ ->
+          let r = step !now !m (parse_op s) in
+          m := mres_mgr r; show r) ops in
       print_string id; print_char ' ';
       print_endline (String.concat "|" outs))
